@@ -252,6 +252,15 @@ def gen_ops(rng, tier, focus, ref, tgt, info, n_res):
     kinds = list(weights)
     ops = []
     n_calls = 0
+    if focus in ("C04", "C01") and rng.random() < (0.3 if focus == "C04" else 0.1):
+        # the construction molecules change (and arguments are rejected) BEFORE the map is used for the first time
+        for _ in range(rng.randint(0, 2)):
+            ops.append({"op": "reject", "kind": rng.choice(["name", "atom_name", "extra_atom", "none", "residue", "array", "str",
+                                                            "moleculetop"])})
+        for what in rng.sample(["construction_ref", "construction_tgt"], rng.randint(1, 2)):
+            ops.append({"op": "mutate", "what": what, "how": rng.choice(["move", "rotate", "overwrite"]),
+                        "d": gen.rvec(rng, 3.0), "R": gen.random_rotation(rng).tolist(), "pick": rng.randrange(1000),
+                        "seed": rng.randrange(2 ** 31)})
     for _ in range(nops):
         k = rng.choices(kinds, weights=[weights[x] for x in kinds])[0]
         if k == "construction":
@@ -327,7 +336,7 @@ def generate(rng, tier, focus):
     ref, tgt, scale, info, n_res = gen_species(rng, tier, focus)
     ops = gen_ops(rng, tier, focus, ref, tgt, info, n_res)
     tr = {"focus": focus, "ref": ref, "tgt": tgt, "scale": scale, "info": info, "ops": ops,
-          "np_seed": rng.randrange(2 ** 32)}
+          "np_seed": rng.randrange(2 ** 32), "eq_early": rng.random() < 0.5}
     if len(ref["positions"]) < 3:
         # override script for the frame completion draw (rand(3) in the map): corners / faces of the unit cube
         tr["script"] = {"completion": rng.choice(["none", "none", "corner", "face", "tiny"]),
@@ -543,9 +552,18 @@ def _execute(trace, ctx, ref_spec, tgt_spec, scale, n, m, ref_pos0, tgt_pos0):
     model = XMapModel(ref_pos0, [tuple(e) for e in ref_spec["edges"]], tgt_pos0, scale) if not small else None
     tgt_names = list(tgt_spec["atom_names"])
 
-    # anchor assignment (from the implementation, validated against the model's tie sets)
+    # anchor assignment (from the implementation, validated against the model's tie sets).  Read either right after
+    # construction or -- trace["eq_early"] false -- only after the first successful call: reading `equivalences` is itself
+    # an observation, and a map that builds its tables on first use would be forced to build them by the harness before
+    # the history had a chance to mutate the construction molecules
     assignment = None
-    if not small:
+    assignment_read = [False]
+
+    def read_assignment():
+        nonlocal assignment
+        if assignment_read[0] or small:
+            return
+        assignment_read[0] = True
         try:
             eq = themap.equivalences
             assignment = [None] * m
@@ -569,6 +587,11 @@ def _execute(trace, ctx, ref_spec, tgt_spec, scale, n, m, ref_pos0, tgt_pos0):
                     break
                 if len(tied) > 1:
                     ctx.probe("anchor_tie")
+
+    if trace.get("eq_early", True):
+        read_assignment()
+    else:
+        ctx.probe("equivalences_read_after_first_call")
 
     # baseline on the construction configuration from an independent fresh map
     base_map = fresh_map()
@@ -622,6 +645,7 @@ def _execute(trace, ctx, ref_spec, tgt_spec, scale, n, m, ref_pos0, tgt_pos0):
             return None
         pending_reject = False
         ctx.steps += 1
+        read_assignment()
         # ---- C04: purity ------------------------------------------------------------------
         d = same_snap(arg_snap, snap(arg))
         if d:
@@ -881,6 +905,7 @@ def _execute(trace, ctx, ref_spec, tgt_spec, scale, n, m, ref_pos0, tgt_pos0):
             for r in returned:
                 if r[0] is target:
                     r[1] = snap(target)
+    read_assignment()
     # results handed out earlier must still be what they were when returned (unless the harness mutated them)
     for r, s0 in returned:
         d = same_snap(s0, snap(r))
